@@ -76,6 +76,9 @@ func (vmi *Vm) String() string {
 // in the menu renderer.
 func (vmi *Vm) WithMenuSeparator(sep string) *Vm {
 	vmi.menuSeparator = sep
+	if sep != "" && vmi.mn != nil {
+		vmi.mn = vmi.mn.WithSeparator(sep)
+	}
 	return vmi
 }
 
